@@ -421,7 +421,18 @@ impl<'t> Gen<'t> {
     fn range_body(&mut self, tag: &str, rich: bool) -> Vec<Piece> {
         let mut p = self.pieces(tag, self.cfg.max_comp_depth.saturating_sub(1), rich);
         if self.t.chance(1, 3) {
-            let v = self.var_piece("count");
+            let mut v = self.var_piece("count");
+            // the count itself may be shown through a formatter (`{{ count, number }}`)
+            if self.cfg.formatters && (self.t.pick(100) as u32) < self.cfg.p_formatter.max(30) {
+                if let Piece::Var { fmt, .. } = &mut v {
+                    let ws = self.ws();
+                    *fmt = Some(FmtSpec {
+                        name: "number".into(),
+                        args: vec![],
+                        text: format!("{ws}number"),
+                    });
+                }
+            }
             p.push(v);
             p = normalize_pieces(p);
         }
